@@ -261,6 +261,27 @@ func (e *Env) tr(x Expr) Term {
 		} else {
 			b = and(append(guards, b)...)
 		}
+		trigs := x.Triggers
+		if len(trigs) == 0 {
+			// default trigger: the element reads a[k] whose index is exactly a bound variable (one per
+			// variable).  Index terms alone (sl_idx s k) make poor triggers: skolem indices produced by
+			// other facts would match them and start matching loops.
+			if g := autoTrigger(x); g != nil {
+				trigs = [][]Expr{g}
+			}
+		}
+		if len(trigs) > 0 {
+			x = &EQuant{Forall: x.Forall, Vars: x.Vars, Body: x.Body, Triggers: trigs}
+			var pats []string
+			for _, g := range x.Triggers {
+				var ts []string
+				for _, te := range g {
+					ts = append(ts, n.value(n.tr(te)).S)
+				}
+				pats = append(pats, ":pattern ("+strings.Join(ts, " ")+")")
+			}
+			b = fmt.Sprintf("(! %s %s)", b, strings.Join(pats, " "))
+		}
 		return Term{S: fmt.Sprintf("(%s (%s) %s)", q, strings.Join(bs, " "), b), Sort: "Bool"}
 	case *ECall:
 		return e.call(x)
@@ -731,6 +752,15 @@ func (e *Env) call(x *ECall) Term {
 	case "sref":
 		a := e.value(e.tr(x.Args[0]))
 		return Term{S: sx("sl_ref", a.S), Sort: "Int"}
+	case "isclosure":
+		// isclosure(f, "Outer$1"): f is a closure of the named function literal
+		a := e.tr(x.Args[0])
+		name, ok := x.Args[1].(*EStr)
+		if !ok {
+			e.fail("isclosure needs a function name string")
+		}
+		vc.declareFun("closure_fn", []string{"Int"}, "Int")
+		return Term{S: sx("=", sx("closure_fn", a.S), vc.funcConst(name.Val)), Sort: "Bool"}
 	case "upd":
 		a := e.value(e.tr(x.Args[0]))
 		k := e.value(e.tr(x.Args[1]))
@@ -842,6 +872,93 @@ func (e *Env) call(x *ECall) Term {
 	return Term{}
 }
 
+// autoTrigger picks, for every bound variable of q, one element read a[v] (outside old()) to serve
+// as the pattern; nil when some variable has no such occurrence.
+func autoTrigger(q *EQuant) []Expr {
+	bound := map[string]bool{}
+	for _, v := range q.Vars {
+		bound[v.Name] = true
+	}
+	found := map[string]Expr{}
+	var mentions func(e Expr) bool
+	mentions = func(e Expr) bool {
+		switch x := e.(type) {
+		case *EIdent:
+			return bound[x.Name]
+		case *ESel:
+			return mentions(x.X)
+		case *EIndex:
+			return mentions(x.X) || mentions(x.I)
+		case *ESlice:
+			return mentions(x.X) || (x.Lo != nil && mentions(x.Lo)) || (x.Hi != nil && mentions(x.Hi))
+		case *ECall:
+			for _, a := range x.Args {
+				if mentions(a) {
+					return true
+				}
+			}
+		case *EUn:
+			return mentions(x.X)
+		case *EBin:
+			return mentions(x.X) || mentions(x.Y)
+		case *ECond:
+			return mentions(x.C) || mentions(x.A) || mentions(x.B)
+		case *EQuant:
+			return mentions(x.Body)
+		}
+		return false
+	}
+	var walk func(e Expr, inOld bool)
+	walk = func(e Expr, inOld bool) {
+		switch x := e.(type) {
+		case *EIndex:
+			if id, ok := x.I.(*EIdent); ok && bound[id.Name] && !mentions(x.X) && !inOld {
+				if _, have := found[id.Name]; !have {
+					found[id.Name] = x
+				}
+			}
+			walk(x.X, inOld)
+			walk(x.I, inOld)
+		case *ESel:
+			walk(x.X, inOld)
+		case *ESlice:
+			walk(x.X, inOld)
+			if x.Lo != nil {
+				walk(x.Lo, inOld)
+			}
+			if x.Hi != nil {
+				walk(x.Hi, inOld)
+			}
+		case *ECall:
+			o := inOld || x.Fun == "old"
+			for _, a := range x.Args {
+				walk(a, o)
+			}
+		case *EUn:
+			walk(x.X, inOld)
+		case *EBin:
+			walk(x.X, inOld)
+			walk(x.Y, inOld)
+		case *ECond:
+			walk(x.C, inOld)
+			walk(x.A, inOld)
+			walk(x.B, inOld)
+		case *EQuant:
+			// inner quantifiers get their own triggers
+		}
+	}
+	walk(q.Body, false)
+	var out []Expr
+	for _, v := range q.Vars {
+		t, ok := found[v.Name]
+		if !ok {
+			return nil
+		}
+		out = append(out, t)
+	}
+	return out
+}
+
 // recCall translates a call of a recursive spec function: an uninterpreted
 // function over its parameters plus the state variables its body reads, with
 // the unfolding rule as a triggered axiom.
@@ -854,7 +971,9 @@ func (e *Env) recCall(sf *SpecFun, x *ECall) Term {
 	if info == nil {
 		scratch := vc.newState()
 		scratch.epoch = -1 - len(vc.recInfo)
-		n := &Env{vc: vc, st: scratch, old: nil, vars: map[string]Term{}, pkg: vc.P.logPkg.Types}
+		scratchOld := vc.newState()
+		scratchOld.epoch = -1001 - len(vc.recInfo)
+		n := &Env{vc: vc, st: scratch, old: scratchOld, vars: map[string]Term{}, pkg: vc.P.logPkg.Types}
 		var psorts []string
 		var pnames []string
 		for _, p := range sf.Params {
@@ -872,10 +991,18 @@ func (e *Env) recCall(sf *SpecFun, x *ECall) Term {
 			svars = append(svars, k)
 		}
 		svars = sortStrings(svars)
+		var ovars []string
+		for k := range scratchOld.vals {
+			ovars = append(ovars, k)
+		}
+		ovars = sortStrings(ovars)
 		vc.items = vc.items[:saveItems]
-		info = &recInfo{name: fname, psorts: psorts, rsort: rsort, svars: svars}
+		info = &recInfo{name: fname, psorts: psorts, rsort: rsort, svars: svars, ovars: ovars}
 		for _, sv := range svars {
 			info.ssorts = append(info.ssorts, vc.stateSort[sv])
+		}
+		for _, ov := range ovars {
+			info.osorts = append(info.osorts, vc.stateSort[ov])
 		}
 		vc.recInfo[key] = info
 		// second pass: real body with recursive calls resolved
@@ -884,6 +1011,12 @@ func (e *Env) recCall(sf *SpecFun, x *ECall) Term {
 		n.st = scratch2
 		for _, sv := range svars {
 			scratch2.vals[sv] = "rs_" + sv
+		}
+		scratchOld2 := vc.newState()
+		scratchOld2.epoch = scratchOld.epoch
+		n.old = scratchOld2
+		for _, ov := range ovars {
+			scratchOld2.vals[ov] = "ro_" + ov
 		}
 		body := n.tr(sf.Body)
 		var binds []string
@@ -895,7 +1028,11 @@ func (e *Env) recCall(sf *SpecFun, x *ECall) Term {
 			binds = append(binds, fmt.Sprintf("(rs_%s %s)", sv, info.ssorts[i]))
 			sargs = append(sargs, "rs_"+sv)
 		}
-		allSorts := append(append([]string{}, psorts...), info.ssorts...)
+		for i, ov := range ovars {
+			binds = append(binds, fmt.Sprintf("(ro_%s %s)", ov, info.osorts[i]))
+			sargs = append(sargs, "ro_"+ov)
+		}
+		allSorts := append(append(append([]string{}, psorts...), info.ssorts...), info.osorts...)
 		vc.declareFun(fname, allSorts, rsort)
 		app := sx(fname, append(append([]string{}, pnames...), sargs...)...)
 		vc.preamble = append(vc.preamble, fmt.Sprintf("(assert (forall (%s) (! (= %s %s) :pattern (%s))))", strings.Join(binds, " "), app, body.S, app))
@@ -922,6 +1059,12 @@ func (e *Env) recCall(sf *SpecFun, x *ECall) Term {
 	for i, sv := range info.svars {
 		as = append(as, vc.get(e.st, sv, info.ssorts[i]))
 	}
+	if len(info.ovars) > 0 && e.old == nil {
+		e.fail("%s uses old() but is called where no old state exists", sf.Name)
+	}
+	for i, ov := range info.ovars {
+		as = append(as, vc.get(e.old, ov, info.osorts[i]))
+	}
 	var rt types.Type
 	if t, _ := e.resolveType(sf.Result); t != nil {
 		rt = t
@@ -935,6 +1078,8 @@ type recInfo struct {
 	rsort   string
 	svars   []string
 	ssorts  []string
+	ovars   []string // state variables read through old()
+	osorts  []string
 	pending bool
 }
 
